@@ -74,7 +74,9 @@ func c14Spell(base string, form int) string {
 	return base
 }
 
-var c14Passwords = []string{"secret", "", "пароль-ü", strings.Repeat("long-password-", 6), "secret ", "Secret", "p w\t", "other"}
+var c14Passwords = []string{"secret", "", "пароль-ü", strings.Repeat("long-password-", 6), "secret ", "Secret", "p w\t", "other",
+	// longer than bcrypt's 72-byte limit, equal in the first 72 bytes; exactly 72 and 73 bytes
+	strings.Repeat("long-password-", 6) + "-other-tail", strings.Repeat("p", 72), strings.Repeat("p", 73)}
 
 type c14Op struct {
 	Kind    string `json:"op"` // create setpw delete plain login
@@ -105,7 +107,7 @@ func c14Gen(t *rapid.T) c14Scenario {
 			Kind: rapid.SampledFrom([]string{"create", "create", "setpw", "delete", "plain", "plain", "plain", "login", "login", "login"}).Draw(t, "op"),
 			User: rapid.SampledFrom([]int{0, 0, 0, 1, 1, 2, 3, 4, 5, 6, 7, 8}).Draw(t, "user"),
 			Form: rapid.SampledFrom([]int{0, 0, 0, 1, 2, 3, 4}).Draw(t, "form"),
-			Pw:   rapid.SampledFrom([]int{0, 0, 0, 1, 2, 3, 4, 5, 6, 7}).Draw(t, "pw"),
+			Pw:   rapid.SampledFrom([]int{0, 0, 0, 1, 2, 3, 3, 4, 5, 6, 7, 8, 8, 9, 10}).Draw(t, "pw"),
 		}
 		if op.Kind == "plain" {
 			op.Authzid = rapid.SampledFrom([]int{0, 0, 1, 2, 3}).Draw(t, "authzid")
@@ -251,6 +253,13 @@ func c14Run(sc c14Scenario) (vs []ev.V) {
 				shape := "other"
 				if op.Kind == "login" && sc.Map != "none" && sc.Map != "identity" {
 					shape = "login-with-" + sc.Map + "-map"
+				}
+				if ok && !want && mapped && exists && len(cur) == 72 && len(pw) > 72 && pw[:72] == cur {
+					// bcrypt looks at the first 72 bytes only: a longer password that starts with the
+					// 72-byte password of the account is accepted (passwords longer than 72 bytes cannot be set)
+					vs = append(vs, ev.Vf("auth:success=true-want-false:bcrypt-password-extended-beyond-72-bytes",
+						"%s: authentication success=%v, the reference model says %v: the account's password is 72 bytes long and the supplied one continues it", where, ok, want))
+					continue
 				}
 				vs = append(vs, ev.Vf(fmt.Sprintf("auth:%s:success=%v-want-%v:%s", op.Kind, ok, want, shape),
 					"%s: authentication success=%v (err %v), the reference model says %v (account %q exists=%v)", where, ok, err, want, acct, exists))
